@@ -1,6 +1,8 @@
 (* C07: the repaired SerializeRecord never panics and always emits the complete event.
    maxEncodedLength is an upper bound of the length of C10's [encode_spec]; with a buffer longer than the event
-   C10's [encode_buf_spec_lemma] applies - nothing about the encoder is proved again. *)
+   C10's [serialize_on_spec] applies.  Since C10 follows fix 413c995 itself, the bound and the totality are C10's
+   lemmas ([max_encoded_length_bound], [encode_buf_spec_lemma] in Proofs/SerializerProofs.v); the names C07 uses
+   are kept here. *)
 From SV Require Import Model.Common Model.Msgpack Model.Unescape Model.Serializer Model.PipelineSerializer
      Spec.MsgpackSpec Spec.SerializerSpec Proofs.CommonFacts Proofs.MsgpackProofs Proofs.UnescapeProofs
      Proofs.SerializerProofs.
@@ -8,115 +10,13 @@ From Coq Require Import Lia ZifyBool ZifyN ZifyNat.
 Ltac Zify.zify_post_hook ::= Z.div_mod_to_equations.
 Open Scope nat_scope.
 
-Lemma rw_header_length_le : forall m a, length (rw_header m a) <= 5.
-Proof. intros. rewrite rw_header_length. destruct (N.of_nat m <? 65536)%N; lia. Qed.
-
-Lemma map_header_length_le : forall c n, length (map_header c n) <= 3.
-Proof. intros. rewrite map_header_length. destruct (N.of_nat c <? 16)%N; lia. Qed.
-
-Section Bound.
-  Variables (schema : list bytes) (cfg : ser_config) (rec : record).
-  Hypothesis Hlen : length schema <= length (r_fields rec).
-  Hypothesis Hver : chains_ok schema cfg.
-
-  (* one visible value: header (at most 5 bytes) + at most what MaxFieldLength reports / the value *)
-  Lemma value_bound : forall n v rwopt,
-    match lookup_rewrite (c_rewrite cfg) n with
-    | None => Ok None
-    | Some chain => new_rewriters schema chain
-    end = Ok rwopt ->
-    exists k, match rwopt with
-              | Some head => max_field_length head v rec
-              | None => Ok (length v)
-              end = Ok k /\ length (enc_value schema cfg rec n v) <= 5 + k.
-  Proof.
-    intros n v rwopt Hrw. unfold enc_value. rewrite chain_of_lookup.
-    destruct (lookup_rewrite (c_rewrite cfg) n) as [[|rc ch]|] eqn:EL.
-    - cbn [new_rewriters] in Hrw. inversion Hrw; subst. exists (length v). split; [reflexivity|apply enc_str_length_le].
-    - destruct (verified_rewriters_spec schema (rc :: ch) ltac:(discriminate) (Hver _ _ EL)) as (rw & Hnew & M).
-      rewrite Hnew in Hrw. inversion Hrw; subst.
-      destruct (M rec v Hlen) as [Mmax _]. exists (rewrite_max schema (r_fields rec) (rc :: ch) v).
-      split; [exact Mmax|]. rewrite app_length.
-      pose proof (rw_header_length_le (rewrite_max schema (r_fields rec) (rc :: ch) v)
-                    (length (rewrite_spec schema (r_fields rec) (r_unescaped rec) (rc :: ch) v))).
-      pose proof (rewrite_spec_le_max schema (r_fields rec) (r_unescaped rec) (rc :: ch) v). lia.
-    - inversion Hrw; subst. exists (length v). split; [reflexivity|apply enc_str_length_le].
-  Qed.
-
-  Lemma max_fields_len_bound : forall names fields rws acc,
-    length fields = length names ->
-    build_rewriters schema cfg names = Ok rws ->
-    exists m, max_fields_len (map (mask_of cfg) names) (map enc_str names) rws fields rec acc = Ok m /\
-              acc + length (flat_map (field_bytes schema cfg rec) (combine names fields)) <= m.
-  Proof.
-    induction names as [|n names IH]; intros fields rws acc Hl Hb.
-    - destruct fields; [|discriminate]. cbn. exists acc. split; [reflexivity|lia].
-    - destruct fields as [|v fields]; [discriminate|]. cbn [length] in Hl.
-      cbn [build_rewriters] in Hb.
-      destruct (match lookup_rewrite (c_rewrite cfg) n with
-                | Some chain => new_rewriters schema chain
-                | None => Ok None
-                end) as [rwopt| |] eqn:Erw; cbn [obind] in Hb; try discriminate.
-      destruct (build_rewriters schema cfg names) as [rws'| |] eqn:Eb; cbn [obind] in Hb; try discriminate.
-      inversion Hb; subst rws. clear Hb.
-      cbn [combine flat_map map max_fields_len].
-      rewrite field_bytes_pair. rewrite mask_of_hidden.
-      destruct (is_hidden cfg n || is_nil v) eqn:Emask.
-      + cbn [app]. apply IH; [lia|reflexivity].
-      + destruct (value_bound n v rwopt) as (k & Hk & Hle).
-        { destruct (lookup_rewrite (c_rewrite cfg) n); exact Erw. }
-        rewrite Hk. cbn [obind].
-        destruct (IH fields rws' (acc + length (enc_str n) + 5 + k) ltac:(lia) eq_refl) as (m & Hm & Hmle).
-        exists m. split; [exact Hm|]. rewrite !app_length. lia.
-  Qed.
-
-End Bound.
-
-Lemma max_env_len_bound : forall schema names locs fields acc,
-    length schema <= length fields ->
-    locate_all schema names = Ok locs ->
-    exists m, max_env_len locs (map enc_str names) fields acc = Ok m /\
-              acc + length (flat_map (env_bytes schema fields) names) <= m.
-  Proof.
-    intros schema names. induction names as [|n names IH]; intros locs fields acc Hf Hloc.
-    - cbn [locate_all] in Hloc. inversion Hloc; subst. cbn. exists acc. split; [reflexivity|lia].
-    - cbn [locate_all] in Hloc. destruct (index_of schema n) as [loc|] eqn:Eloc; [|discriminate].
-      destruct (locate_all schema names) as [locs'| |] eqn:El; cbn [obind] in Hloc; try discriminate.
-      inversion Hloc; subst locs. clear Hloc.
-      cbn [flat_map map max_env_len].
-      rewrite (get_field_value schema fields n loc Eloc Hf). cbn [obind].
-      destruct (IH locs' fields (acc + length (enc_str n) + 5 + length (field_value schema fields n)) Hf eq_refl)
-        as (m & Hm & Hmle).
-      exists m. split; [exact Hm|]. unfold env_bytes at 1. rewrite !app_length.
-      pose proof (enc_str_length_le (field_value schema fields n)). lia.
-  Qed.
-
 (* maxEncodedLength never panics and bounds the event *)
 Lemma max_encoded_length_bound : forall schema cfg rec B ser,
   chains_ok schema cfg ->
   length schema <= length (r_fields rec) ->
   new_serializer schema cfg B = Ok ser ->
-  exists m, max_encoded_length ser rec = Ok m /\ length (encode_spec schema cfg rec) <= m.
-Proof.
-  intros schema cfg rec B ser V L Hnew.
-  destruct (new_serializer_inv _ _ _ _ Hnew) as (Hm & Hk & Hek & Hloc & Hrw & Hb).
-  unfold max_encoded_length. rewrite Hm, Hk, Hek. rewrite map_length.
-  replace (length schema <=? length (r_fields rec)) with true by lia. cbn [obind].
-  set (fields := firstn (length schema) (r_fields rec)).
-  assert (Hfl : length fields = length schema) by (subst fields; rewrite firstn_length; lia).
-  destruct (max_fields_len_bound schema cfg rec L V schema fields (s_rewriters ser) fixed_overhead Hfl Hrw)
-    as (m1 & Hm1 & Hle1).
-  rewrite Hm1. cbn [obind].
-  destruct (max_env_len_bound schema (c_env cfg) (s_env_locs ser) fields m1 ltac:(lia) Hloc) as (m2 & Hm2 & Hle2).
-  exists m2. split; [exact Hm2|].
-  unfold encode_spec. rewrite enc_fields_as_loop, enc_env_as_loop. fold fields.
-  rewrite !app_length.
-  pose proof (map_header_length_le (length schema + 1) (1 + length (visible schema cfg rec))).
-  pose proof (map_header_length_le (length (c_env cfg)) (length (c_env cfg))).
-  assert (length (event_time_bytes rec) = 8) by reflexivity.
-  assert (length (enc_str str_environment) = 12) by reflexivity.
-  unfold fixed_overhead in Hle1. cbn [length]. lia.
-Qed.
+  exists m, PipelineSerializer.max_encoded_length ser rec = Ok m /\ length (encode_spec schema cfg rec) <= m.
+Proof. exact SerializerProofs.max_encoded_length_bound. Qed.
 
 Lemma new_serializer_buflen : forall schema cfg B ser n,
   new_serializer schema cfg B = Ok ser -> new_serializer schema cfg n = Ok (with_buflen ser n).
@@ -137,12 +37,7 @@ Theorem serialize_fixed_total : forall schema cfg rec B ser,
   serialize_record_fixed true ser rec = Ok (encode_spec schema cfg rec).
 Proof.
   intros schema cfg rec B ser V L Hnew. unfold serialize_record_fixed.
-  destruct (max_encoded_length_bound schema cfg rec B ser V L Hnew) as (m & Hm & Hle).
-  rewrite Hm. cbn [obind].
-  destruct (new_serializer_inv _ _ _ _ Hnew) as (_ & _ & _ & _ & _ & Hb).
-  destruct (s_buflen ser <=? m) eqn:E.
-  - apply (encode_buf_spec_lemma schema cfg rec (S m) _ V L (new_serializer_buflen _ _ _ _ (S m) Hnew)). lia.
-  - apply (encode_buf_spec_lemma schema cfg rec B ser V L Hnew). apply Nat.leb_gt in E. lia.
+  exact (encode_buf_spec_lemma schema cfg rec B ser V L Hnew).
 Qed.
 
 (* the event is never empty (it starts with the array header), so the stream is never the "dropped" one *)
